@@ -1,29 +1,122 @@
-"""Known findings: committed list of genuine defects that are recorded rather than repaired.
-A violating case is matched through a property-specific key (see each property's driver);
-anything not listed is a new violation."""
+"""Known findings: committed list (/verif/known_findings.json, never written at run time) of genuine
+defects that are recorded rather than repaired.  A violating case is matched through keys that name the
+root cause (the failing input class or the call site, computed by the classifiers below from the case
+itself); a case none of whose keys is listed is a new violation."""
 import json
 import os
+import re
 
 import common
+import gen
 
 
-def settle(prop, viol, describe, keyf=None):
-    """viol: list of (case, classification).  Returns dict with known_hit, known_lines, new (list of replay paths)."""
-    known = [f for f in common.load_known().get("findings", []) if f.get("property") == prop]
+def settle(prop, viol, describe, keysf=None):
+    """viol: list of (case, classification).  keysf(case) -> list of candidate keys (default: describe(case)["key"]).
+    Returns dict with known_hit, known_lines, new (list of replay paths)."""
+    known = {f["key"]: f for f in common.load_known().get("findings", []) if f.get("property") == prop}
     hit, lines, new = {}, [], []
     for c, cl in viol:
         d = describe(c)
-        k = keyf(c) if keyf else d.get("key", d.get("orig"))
-        match = None
-        for f in known:
-            if f.get("key") == k:
-                match = f
-                break
+        keys = keysf(c) if keysf else [d.get("key", d.get("orig"))]
+        match = next((k for k in keys if k in known), None)
         if match is not None:
-            hit.setdefault(match["key"], [0, match])[0] += 1
+            hit[match] = hit.get(match, 0) + 1
         else:
-            p = common.save_replay(prop, common.stable_hash(d), {"property": prop, "case": d, "verdict": list(cl), "key": k})
+            p = common.save_replay(prop, common.stable_hash(d), {"property": prop, "case": d, "verdict": list(cl), "keys": keys})
             new.append(p)
-    for k, (n, f) in hit.items():
-        lines.append("KNOWN-FINDING: property=%s %s [%d case(s) this run]" % (prop, f.get("what", k), n))
-    return {"known_hit": sum(n for n, _ in hit.values()), "known_lines": lines, "new": new}
+    for k, n in hit.items():
+        lines.append("KNOWN-FINDING: property=%s %s [key %s; %d case(s) this run]" % (prop, known[k].get("what", k), k, n))
+    return {"known_hit": sum(hit.values()), "known_lines": lines, "new": new}
+
+
+# --------------------------------------------------------------------------------------------
+# classifiers (they only name the input class of an already established violation)
+
+def const_accesses(tokens):
+    """memory accesses with constant byte ranges in a straight-line instruction list, found by a tiny
+    constant propagation over PUSH/DUP/SWAP/POP/ADD: list of (kind, start, width)"""
+    st, acc = [], []
+
+    def pop():
+        return st.pop() if st else None
+    for t in tokens:
+        w = t.split()
+        op = w[0]
+        if op == "PUSH" and len(w) == 2:
+            try:
+                st.append(int(w[1], 16))
+            except ValueError:
+                st.append(None)
+        elif op == "PUSH0":
+            st.append(0)
+        elif op.startswith("PUSH"):
+            st.append(None)
+        elif op.startswith("DUP") and op[3:].isdigit():
+            k = int(op[3:])
+            while len(st) < k:
+                st.insert(0, None)
+            st.append(st[-k])
+        elif op.startswith("SWAP") and op[4:].isdigit():
+            k = int(op[4:])
+            while len(st) < k + 1:
+                st.insert(0, None)
+            st[-1], st[-1 - k] = st[-1 - k], st[-1]
+        elif op == "POP":
+            pop()
+        elif op == "ADD":
+            a, b = pop(), pop()
+            st.append((a + b) % 2 ** 256 if a is not None and b is not None else None)
+        elif op in ("MLOAD",):
+            a = pop()
+            if a is not None:
+                acc.append(("MLOAD", a, 32))
+            st.append(None)
+        elif op in ("MSTORE", "MSTORE8"):
+            a = pop(); pop()
+            if a is not None:
+                acc.append((op, a, 32 if op == "MSTORE" else 1))
+        elif op in ("KECCAK256", "SHA3"):
+            a, ln = pop(), pop()
+            if a is not None and ln is not None and ln > 0:
+                acc.append(("KECCAK256", a, ln))
+            st.append(None)
+        else:
+            try:
+                p, q = gen.arity(t)
+            except Exception:
+                p, q = 0, 0
+            for _ in range(p):
+                pop()
+            for _ in range(q):
+                st.append(None)
+    return acc
+
+
+def misaligned_overlap(plain):
+    """does the block contain two constant-range memory accesses that overlap without coinciding and that are
+    not word-aligned with each other (offsets differing by a non-multiple of 32, or a byte store inside a word)?"""
+    acc = const_accesses(gen.tokens(plain))
+    for i in range(len(acc)):
+        for j in range(i + 1, len(acc)):
+            (k1, a, w), (k2, b, v) = acc[i], acc[j]
+            if k1 == "MLOAD" and k2 == "MLOAD":
+                continue
+            if a < b + v and b < a + w and (a, w) != (b, v) and ((a - b) % 32 != 0 or w == 1 or v == 1):
+                return True
+    return False
+
+
+def rule_kinds(rules):
+    """normalized names of the rules recorded in a specification"""
+    out = []
+    for r in rules or []:
+        r = str(r)
+        if r.startswith("(("):
+            k = "LOAD-FORWARD"
+        elif r.startswith("EVAL"):
+            k = "EVAL"
+        else:
+            k = re.sub(r"[0-9]+", "N", r)[:40]
+        if k not in out:
+            out.append(k)
+    return out
